@@ -66,7 +66,7 @@ PROPS = {
     ),
     'C01': dict(
         modules=['NitroVerif.Props.C01', 'NitroVerif.Props.C01c'],
-        runs=[('mvcc', gens.gen_mvcc, 300, 30000), ('mvcc', gens.gen_mvcc_iter, 150, 10000)],
+        runs=[('mvcc', gens.gen_mvcc, 300, 30000), ('mvcc', gens.gen_mvcc_iter, 150, 10000), ('mvcc', gens.gen_mvcc_visit, 100, 5000)],
         iruns=[('mvccconc', gens.gen_mvccconc, 100, 5000)],
         keep_prefix=1,
         level='proof',
@@ -96,7 +96,7 @@ PROPS = {
     ),
     'C06': dict(
         modules=['NitroVerif.Props.C06', 'NitroVerif.Props.C06Handoff'],
-        runs=[('mvcc', gens.gen_mvcc, 300, 30000), ('mvcc', gens.gen_mvcc_mm, 100, 10000)],
+        runs=[('mvcc', gens.gen_mvcc, 300, 30000), ('mvcc', gens.gen_mvcc_mm, 100, 10000), ('mvcc', gens.gen_backup, 60, 3000)],
         iruns=[('refcount', gens.gen_refcount, 100, 4000), ('mvccconc', gens.gen_mvccconc, 80, 4000)],
         keep_prefix=1,
         level='proof',
@@ -107,7 +107,7 @@ PROPS = {
     ),
     'C05': dict(
         modules=['NitroVerif.Props.C05', 'NitroVerif.Props.C05e2e', 'NitroVerif.Props.C10', 'NitroVerif.Props.C18'],
-        runs=[('mvcc', gens.gen_backup, 120, 6000), ('mvcc', gens.gen_mvcc_visit, 100, 5000)],
+        runs=[('mvcc', gens.gen_backup, 120, 6000), ('mvcc', gens.gen_mvcc_visit, 100, 5000), ('mvcc', gens.gen_backup_stress, 12, 400)],
         keep_prefix=1,
         level='proof',
         level_text='C05_end_to_end (what the Visitor of the MVCC model hands to the shard writers, framed and described by the manifests, loads back as exactly the snapshot content, for every pivot list), C05_roundtrip (any partition of the content into shard files), C05_roundtrip_delta_general and C05_delta_any_interleaving are proved on the backup model over an abstract file system (framing from C19, assembly in file order); that the Visitor produces a partition is C10, that the assembled list is well formed is C18. Differential: random histories, store of any open snapshot with mutation and collection during the backup (delta on/off), restore into a fresh instance, scan, continue the history',
@@ -173,7 +173,7 @@ PROPS = {
     'C04': dict(
         modules=['NitroVerif.Props.C04', 'NitroVerif.Props.C16', 'NitroVerif.Props.C13c'],
         iruns=[('mvccconc', gens.gen_mvccconc, 120, 5000), ('barrier', gens.gen_barrier, 80, 3000), ('skipconc', gens.gen_skipconc, 80, 3000)],
-        runs=[('mvcc', gens.gen_mvcc_mm, 150, 10000)],
+        runs=[('mvcc', gens.gen_mvcc_mm, 150, 10000), ('mvcc', gens.gen_backup_stress, 12, 400)],
         keep_prefix=1,
         level='proof',
         level_text='C04_no_use_after_free, C04_references_valid, C04_no_double_free, C04_freed_not_linked, C04_one_owner are proved for every schedule of writers, readers, snapshot closes, collection jobs and free jobs on the small-step MVCC model with blocks and an abstract access barrier (acquire/release/flush atomic, destructors in session order once all earlier accessors left — which is what C16/C17 prove of the real barrier, included in this check). PARTIAL in this sense: the composition "barrier theorem + atomic skiplist operations (C13) imply the abstract model" is argued, not mechanised, and machine-level memory safety of unsafe pointer arithmetic is outside any model. Every memory-managed run uses the guard allocator (double/invalid free at the call, poison re-verified), the steered engine drives the reclamation pipeline job by job',
@@ -183,8 +183,8 @@ PROPS = {
                  'unsafe pointer packing and the Go runtime are not modelled'],
     ),
     'C07': dict(
-        modules=['NitroVerif.Props.C07', 'NitroVerif.Props.C17'],
-        iruns=[('mvccconc', gens.gen_mvccconc, 120, 5000), ('barrier', gens.gen_barrier, 80, 3000)],
+        modules=['NitroVerif.Props.C07', 'NitroVerif.Props.C17', 'NitroVerif.Props.C13c'],
+        iruns=[('mvccconc', gens.gen_mvccconc, 120, 5000), ('barrier', gens.gen_barrier, 80, 3000), ('skipconc', gens.gen_skipconc, 80, 3000)],
         runs=[('mvcc', gens.gen_mvcc_mm, 150, 10000), ('mvcc', gens.gen_backup, 60, 3000)],
         keep_prefix=1,
         level='proof',
